@@ -66,8 +66,8 @@ def r1_r2_header(repo, report):
     report.saw(function="expected_errors_from_phreds")
     body = fn.body
     loops = [s for s in body if isinstance(s, ast.While)]
-    if len(loops) != 2:
-        raise Unrecognised(f"expected two loops in expected_errors_from_phreds, found {len(loops)}")
+    if len(loops) not in (1, 2):
+        raise Unrecognised(f"expected the unrolled loop and a tail in expected_errors_from_phreds, found {len(loops)} loops")
     pre = {}
     for s in body:
         if isinstance(s, ast.Assign) and isinstance(s.targets[0], ast.Name):
@@ -113,12 +113,17 @@ def r1_r2_header(repo, report):
         raise Unrecognised("cursor variable not identified")
     CUR = curs[0]
 
-    def analyse_loop(lp, label):
+    def analyse_loop(lp, label, extra_env=None, advance=True):
         env = dict(env0)
         env[CUR] = Obj("CUR", nonnull=True)
         for a in accs:
             env[a] = Lin.atom("ACC_" + a)
         env[maxs[0]] = Lin.atom("MAX")
+        env.update(extra_env or {})
+        for st in lp.body:
+            for a_ in ast.walk(st):
+                if isinstance(a_, ast.Assign) and isinstance(a_.targets[0], ast.Name) and a_.targets[0].id in accs:
+                    return None, [f"{src(a_)}: the accumulator is overwritten, what was summed before is lost"], 0
         rows = explore(None, lp.body, env, inline=False, integer=True)
         report.saw(valuations=len(rows))
         ok_rows = [r for r in rows if r.exit[0] == "fall"]
@@ -154,7 +159,7 @@ def r1_r2_header(repo, report):
                 problems.append("an accumulator is used twice in one iteration")
             if offs != list(range(len(offs))):
                 problems.append(f"offsets read: {offs}")
-            if adv != [f"+{len(offs)}"]:
+            if (adv != [f"+{len(offs)}"]) if advance else bool(adv):
                 problems.append(f"cursor advances by {adv} but {len(offs)} values are read")
         if not ok_rows:
             problems.append("no accepting path")
@@ -164,12 +169,20 @@ def r1_r2_header(repo, report):
                 problems.append(f"rejecting path returns {vkey(r.exit[1])}")
             if not any(_over(r, k) for k in range(8)):
                 problems.append(f"a path rejects the input although every consulted value is within range: {r.describe()['valuation']}")
-            if any(e[0] == "auglocal" for e in r.effects):
-                problems.append("accumulators are updated before the range check")
+            # values added before the rejection do no harm (the sum is discarded) - unless the lookup itself used a value
+            # that had not been found within range
+            for e in r.effects:
+                if e[0] == "auglocal" and e[1] in accs:
+                    m = re.fullmatch(r"\+SCORE_TO_ERROR_RATE\[-BASE\+CUR\[(\d+)\]\]", e[2])
+                    if not m or _over(r, int(m.group(1))) is not False:
+                        problems.append(f"{e[1]} += {e[2][1:]} is looked up before that value is range-checked")
         return offs, problems, len(rows)
 
     o1, p1, n1 = analyse_loop(loops[0], "main")
-    o2, p2, n2 = analyse_loop(loops[1], "tail")
+    if len(loops) == 2:
+        o2, p2, n2 = analyse_loop(loops[1], "tail")
+    else:
+        o2, p2, n2 = _tail_block(body, loops[0], ends[0], CUR, len(o1) if o1 else 0, analyse_loop)
     stride = len(o1) if o1 else None
     # loop conditions
     def cond(lp):
@@ -179,13 +192,13 @@ def r1_r2_header(repo, report):
             return e.num(e.ev(t.comparators[0], env0))
         return None
 
-    c1, c2 = cond(loops[0]), cond(loops[1])
+    c1, c2 = cond(loops[0]), (cond(loops[1]) if len(loops) == 2 else endp)
     if stride:
         if c1 is None or c1 != endp - (stride - 1):
             p1.append(f"main loop runs while cursor < {vkey(c1) if c1 is not None else src(loops[0].test)}, expected end - {stride - 1}")
     if c2 is None or c2 != endp:
-        p2.append(f"tail loop runs while cursor < {vkey(c2) if c2 is not None else src(loops[1].test)}, expected the end pointer")
-    if o2 != [0]:
+        p2.append(f"tail loop runs while cursor < {vkey(c2) if c2 is not None else src(loops[-1].test)}, expected the end pointer")
+    if o2 != [0] and not p2:
         p2.append(f"tail loop reads offsets {o2}")
     report.ob("C14.R2", "expected_errors_from_phreds: unrolled loop", not p1, facts={"offsets": o1, "stride": stride, "problems": p1[:3]}, expected="reads cursor[0..s-1] once each, each range-checked on its own, cursor += s, while cursor < end - (s-1)", loc="src/cutadapt/expected_errors.h", cases=n1,
               why=p1[0] if p1 else "")
@@ -239,6 +252,35 @@ def r1_r2_header(repo, report):
 
 
 # ---------------------------------------------------------------------------
+def _tail_block(body, main_loop, end_name, cur_name, stride, analyse):
+    """The tail written without a loop: after the unrolled loop, a distinction on the number of values left (end - cursor,
+    0 .. stride-1; a switch in the header) whose branches add the remaining values. For every possible remainder r the
+    accepting path reads cursor[0..r-1] once each, range-checked, and adds each to an accumulator. Returns ([0], problems,
+    cases) in the vocabulary of the loop form."""
+    i = body.index(main_loop)
+    tail = [s for s in body[i + 1:] if not isinstance(s, ast.Return)]
+    rest = [s for s in tail if isinstance(s, ast.Assign) and isinstance(s.value, ast.BinOp) and isinstance(s.value.op, ast.Sub) and chain(s.value.left) == end_name and chain(s.value.right) == cur_name]
+    if len(rest) != 1 or not stride:
+        raise Unrecognised("expected_errors_from_phreds: the code after the unrolled loop is neither a loop nor a distinction on end - cursor")
+    var = rest[0].targets[0].id
+    stmts = [s for s in tail if s is not rest[0]]
+    problems = []
+    cases = 0
+
+    class _B:
+        pass
+
+    for r in range(stride):
+        blk = _B()
+        blk.body = stmts
+        offs, p, n = analyse(blk, f"tail({r})", extra_env={var: Lin.k(r)}, advance=False)
+        cases += n
+        problems += [f"{r} value(s) left: {x}" for x in p]
+        if not p and (offs or []) != list(range(r)):
+            problems.append(f"{r} value(s) left: offsets {offs} are added, expected {list(range(r))}")
+    return [0], problems, cases
+
+
 def r3_polya(repo, report):
     fn = repo.func("qualtrim", "poly_a_trim_index")
     ps = params(fn)
